@@ -6,6 +6,7 @@
 // and all comparison against the TLA+ model happens outside (bin/check); this binary only runs
 // mech and projects what it observes.
 #![allow(warnings)]
+#![feature(alloc_error_hook)]
 mod project;
 mod session;
 mod syntaxmode;
@@ -18,6 +19,10 @@ use std::io::{BufRead, Write};
 fn main() {
   // Panics inside mech are data, not noise.
   std::panic::set_hook(Box::new(|_| {}));
+  // an allocation that fails (address-space limit of the worker) becomes a catchable panic: data, not a crash
+  std::alloc::set_alloc_error_hook(|layout| {
+    panic!("verif-alloc-error: {} bytes", layout.size());
+  });
   let args: Vec<String> = std::env::args().collect();
   let mode = args.get(1).map(|s| s.as_str()).unwrap_or("exec");
   match mode {
